@@ -120,6 +120,11 @@ func (f *flusher) markMetadataDirty(key, mdSuffix string) {
 		return // Blob is not yet complete, we can't start flushing.
 	}
 
+	// The flush that is enqueued below lifts the eviction ban when it is done. A previous
+	// flush of this blob may lift it concurrently, so (re)establish it here, under f.mu.
+	if err := f.mem.BanEviction(key); err != nil && !errors.Is(err, os.ErrNotExist) {
+		f.log.With("key", key, "error", err).Error("Could not ban eviction of blob with dirty metadata")
+	}
 	f.blobs[key] = &blob{
 		key:       key,
 		dataDirty: false,
@@ -179,6 +184,14 @@ func (f *flusher) flush(b *blob) {
 	verifYield("flush.start", key)
 	defer func() {
 		verifYield("flush.beforeUnban", key)
+		// A metadata update may have re-enqueued the blob after the dirty bookkeeping was
+		// removed. In that case the blob must stay in memory until that flush has run (which
+		// then lifts the ban), otherwise eviction from memory would lose the update.
+		f.mu.Lock()
+		defer f.mu.Unlock()
+		if _, requeued := f.blobs[key]; requeued {
+			return
+		}
 		err := f.mem.UnbanEviction(key) // prevent leak
 		if err != nil {
 			f.log.With(
